@@ -12,6 +12,7 @@ import scipy.linalg
 import bct
 from bctmc import smallscope as ss
 from bctmc import oracles as orc
+from bctmc import named
 from bctmc.runner import guarded
 from bctmc.tally import Tally
 
@@ -19,7 +20,7 @@ PROPERTY = 'C18'
 RULE = ('random-walk measures: every connected undirected graph over weights {1,2}, {0.5,1} and the nearly decomposable {0.002,1} (n<=5) on n<=4, binary n=5, every '
         'strongly connected binary digraph n<=4 (thorough: weights {1,2} and {0.5,1,2} on n=5); pagerank additionally x d in '
         '{0.5,0.85} x falff in {None, non-uniform}; spectral measures and findwalks: every undirected graph n<=6 (findwalks also '
-        'every digraph n<=4) plus C8, K4,4, Petersen, 2xK4, 3-cube, K3,3+isolated; non-trivial = graph with a repeated '
+        'every digraph n<=4) plus C8, K4,4, Petersen, 2xK4, 3-cube, K3,3+isolated and the structured 7-10 node family of bctmc/named.py; non-trivial = graph with a repeated '
         'adjacency eigenvalue (spectral) / with unequal node strengths (random walk)')
 ASSUMPTIONS = ['numpy/scipy linear algebra as reference (expm, matrix_power, eigvalsh); residual tolerance 1e-8',
                'mean first passage time is judged off the diagonal (the routine reports 0 on the diagonal)',
@@ -214,6 +215,25 @@ def work(unit):
             check_findwalks(t, A, {'family': 'fw_dir%d' % name, 'index': idx, 'A': A})
             t.c['graphs'] += 1
     else:
+        extra = dict(named.family('bin_und'))
+        extra.update({'w:' + k: v for k, v in named.family('len_und')})
+        for gname, A in extra.items():
+            case = {'family': 'named', 'name': gname, 'A': A}
+            t.c['graphs'] += 1
+            if not gname.startswith('w:'):
+                if check_spectral(t, A, case):
+                    t.c['nontrivial'] += 1
+                if len(A) <= 8:
+                    check_findwalks(t, A, case)
+            if ss.is_connected(A):
+                check_rw(t, A, case, False)
+        for gname, A in named.family('bin_dir'):
+            case = {'family': 'named', 'name': gname, 'A': A}
+            if len(A) <= 8:
+                check_findwalks(t, A, case)
+            if ss.strongly_connected(A):
+                t.c['graphs'] += 1
+                check_rw(t, A, case, True)
         for gname, A in named_graphs().items():
             case = {'family': 'named', 'name': gname, 'A': A}
             t.c['graphs'] += 1
